@@ -17,6 +17,11 @@ PLAN = {
     "C11-B": ["C11"], "C12-A": ["C12", "C03"], "C12-B": ["C12"], "C13-A": ["C13", "C14"], "C13-B": [],
     "C14-A": ["C14"], "C14-B": ["C14", "C13"], "C15-A": ["C15"], "C15-B": ["C15"], "C16-A": ["C16"], "C16-B": ["C16"],
     "C17-A": ["C17"], "C17-B": ["C17"], "C18-A": ["C18"], "C18-B": ["C18"], "C19-A": ["C19"], "C19-B": ["C19"],
+    # second batch (made against the repaired tree)
+    "C02-C": ["C02", "C12"], "C02-D": ["C02", "C04"], "C04-C": ["C04", "C02"], "C04-D": ["C04"], "C05-C": ["C05"],
+    "C05-D": ["C05", "C15"], "C06-C": ["C06"], "C06-D": ["C14", "C13"], "C07-C": ["C07"], "C07-D": ["C07"],
+    "C09-C": ["C09"], "C09-D": ["C09"], "C13-C": ["C14", "C13"], "C13-D": ["C13", "C09"], "C15-C": ["C15"],
+    "C15-D": ["C15"],
 }
 
 
